@@ -1,24 +1,45 @@
 (** Pins/C13.v — the statements of the C13 theorems, pinned. *)
-From PdfV Require Import Base.Prelude Gen.Generated Cache.Model Cache.Conc Cache.ConcProofs Cache.ConcLink Cache.Tables Properties.C13.
+From PdfV Require Import Base.Prelude Gen.Generated Cache.Model Cache.Conc Cache.Proofs Cache.ConcProofs Cache.ConcLink Cache.Tables Properties.C13.
 
 Check C13_per_thread_chain : forall c prog rank,
-  per_thread c = true -> acyclic1 prog rank -> conc_statement c prog (D1 prog rank).
+  per_thread c = true -> acyclic prog rank -> conc_statement c prog (D prog rank).
 Check C13_completion : forall c prog rank progs sched fuel,
-  per_thread c = true -> acyclic1 prog rank ->
-  state_ok c (D1 prog rank) progs (complete c prog fuel (length progs) (run_sched c prog (ginit progs) sched)).
+  per_thread c = true -> acyclic prog rank ->
+  state_ok c (D prog rank) progs (complete c prog fuel (length progs) (run_sched c prog (ginit progs) sched)).
 Check C13_terminates : forall c prog rank progs sched,
-  per_thread c = true -> acyclic1 prog rank ->
+  per_thread c = true -> acyclic prog rank ->
   exists fuel, all_finished (complete c prog fuel (length progs) (run_sched c prog (ginit progs) sched)) (length progs) = true.
-Check C13_sequential_answer : forall (prog : ref -> comp) (rank : ref -> nat) (oc sc : bool) (fuel : nat)
-    (r : ref) (o : outcome) (st' : state),
-  acyclic1 prog rank -> (rank r < fuel)%nat ->
-  get (cfg_fixed oc sc) (fun _ => prog) fuel [] 0 r init = (o, st') -> o = D1 prog rank r.
+Check C13_sequential_answer :
+  forall (prog : tytag -> ref -> comp) (filters : ref -> list filt) (raw : ref -> outcome)
+         (appf : filt -> val -> outcome) (imgc : ref -> filt -> val -> outcome)
+         (rank : ref -> nat) (oc sc : bool) (fuel : nat) (history : list call) (ty : tytag) (r : ref),
+    acyclic prog rank -> fuel_ok rank fuel history -> (rank r < fuel)%nat ->
+    let st := final_state prog filters raw appf imgc oc sc fuel history init in
+    fst (get (cfg_fixed oc sc) prog fuel [] ty r st) = D prog rank ty r /\
+    fst (get no_cache prog fuel [] ty r init) = D prog rank ty r.
+Check C13_answers_alone : forall c prog rank progs sched fuel t,
+  per_thread c = true -> acyclic prog rank ->
+  (forall cl, In cl (nth t progs []) -> (rank (snd cl) < fuel)%nat) ->
+  let g := run_sched c prog (ginit progs) sched in
+  let alone := fun cl : tcall => fst (get no_cache prog fuel [] (fst cl) (snd cl) init) in
+  (exists k, results (threads g t) = map alone (firstn k (nth t progs []))) /\
+  (finished g t = true -> results (threads g t) = map alone (nth t progs [])).
+(* the shape of the statement: typed calls, typed expected answers, any number of threads and calls *)
+Check (eq_refl : conc_statement = fun c prog seq =>
+  forall (progs : list (list tcall)) (sched : list tid), state_ok c seq progs (run_sched c prog (ginit progs) sched)).
+Check (eq_refl : state_ok = fun c (seq : tytag -> ref -> outcome) (progs : list (list tcall)) g =>
+  aborted g = false /\ (forall rs, poisoned g rs = false) /\
+  (forall t, prefix_ok seq (nth t progs []) (results (threads g t))) /\
+  (forall t, finished g t = true -> results (threads g t) = map (call_ans seq) (nth t progs [])) /\
+  deadlocked c g (length progs) = false).
+Check (eq_refl : call_ans = fun (seq : tytag -> ref -> outcome) (cl : tcall) => seq (fst cl) (snd cl)).
+Check (eq_refl : tcall = (tytag * ref)%type).
 Check C13_full_refuted : ~ C13_full_statement.
 Check C13_refuted_shared_chain : exists prog progs sched,
   let c := mkCcfg true false false in
   let g := complete c prog 100 (length progs) (run_sched c prog (ginit progs) sched) in
   results (threads g 1%nat) = [Err E_OTHER] /\
-  (forall fuel, fst (get no_cache (fun _ => prog) (S fuel) [] 0 1 init) = Ok 5).
+  (forall fuel, fst (get no_cache prog (S fuel) [] 0 1 init) = Ok 5).
 Check C13_refuted_pop_assert : exists prog progs sched,
   let c := mkCcfg true false false in
   let g := complete c prog 100 (length progs) (run_sched c prog (ginit progs) sched) in
@@ -31,4 +52,13 @@ Check C13_cyclic_deadlock : exists prog progs sched,
   deadlocked c (complete c prog 100 (length progs) (run_sched c prog (ginit progs) sched)) (length progs) = true.
 Check C13_chain_table : cache_chain_per_thread = true.
 Check (eq_refl : C13_full_statement = conc_full_statement).
-Check (eq_refl : conc_full_statement = (forall c prog fuel, conc_statement c prog (fun r => fst (get no_cache (fun _ => prog) fuel [] 0 r init)))).
+Check (eq_refl : conc_full_statement = (forall c prog fuel, conc_statement c prog (fun ty r => fst (get no_cache prog fuel [] ty r init)))).
+Check C13_serving_cached_errors_refuted : forall k : N, In k error_kinds ->
+  let serve := fun e : N => e =? k in
+  let prog := kind_prog k in
+  let c := mkCcfg true true true in
+  let g := fold_left (step_gen c prog serve) [0; 0; 1; 1; 0; 0; 0; 1; 1; 1; 1; 1]%nat (ginit [[(1, 3)]; [(2, 3)]]) in
+  acyclic prog (fun _ => O) /\ finished g 1%nat = true /\
+  results (threads g 1%nat) = [Err k] /\ fst (get no_cache prog 2 [] 2 3 init) = Ok 7.
+Check (eq_refl : step = fun c prog => step_gen c prog (fun _ => false)).
+Check (eq_refl : error_kinds = [1; 2; 3; 4; 5; 6; 7; 8; 9; 10; 11]).
